@@ -222,16 +222,18 @@ def tampered(doc, universe_paths):
     from codelimit.common.report.Report import Report as _Rep
 
     parts = _Rep.VERSION.split(".")
-    for near in (".".join(parts[:2] + ["0"]) if parts[2:] != ["0"] else ".".join(parts[:2] + ["9"]), ".".join(parts[:2]), _Rep.VERSION + ".post1"):
+    nears = (".".join(parts[:2] + ["0"]) if parts[2:] != ["0"] else ".".join(parts[:2] + ["9"]), ".".join(parts[:2]), _Rep.VERSION + ".post1")
+    for near in nears[: (1 if QUICK["on"] else None)]:
         d = copy.deepcopy(doc)
         d["version"] = near  # another release of the same minor series
         out.append((f"near-version", d))
     d = copy.deepcopy(doc)
     del d["version"]  # documents written by old releases carry no version at all
     out.append(("no-version", d))
-    d = copy.deepcopy(doc)
-    d["version"] = None
-    out.append(("null-version", d))
+    if not QUICK["on"]:
+        d = copy.deepcopy(doc)
+        d["version"] = None
+        out.append(("null-version", d))
     for p in sorted(doc["codebase"]["files"])[: (1 if QUICK["on"] else None)]:
         d = copy.deepcopy(doc)
         del d["codebase"]["files"][p]
